@@ -52,6 +52,7 @@ type Result struct {
 	CaseKey   string            `json:"case_key,omitempty"`
 	Crash     string            `json:"crash,omitempty"` // worker died during this run: stderr signature
 	Args      map[string]string `json:"-"`
+	Batch     []uint64          `json:"-"` // seeds the worker process ran before (and including) this one
 }
 
 type Job struct {
@@ -68,6 +69,10 @@ type Job struct {
 }
 
 type Replay struct {
+	// PrefixSeeds: runs executed in the same worker process before the failing one; needed
+	// when the failure depends on state the system under test keeps in package-level
+	// variables across gateway instances of one process
+	PrefixSeeds []uint64 `json:"prefix_seeds,omitempty"`
 	Property string            `json:"property"`
 	Scenario string            `json:"scenario"`
 	Seed     uint64            `json:"seed"`
@@ -214,6 +219,9 @@ func runWorker(worker string, job *Job, race bool, timeout time.Duration) (resul
 				var r Result
 				if e := json.Unmarshal([]byte(ln[7:]), &r); e == nil {
 					r.Args = job.Args
+					if r.Violation != nil && len(results) > 0 {
+						r.Batch = append([]uint64{}, job.Seeds[:len(results)+1]...)
+					}
 					results = append(results, &r)
 					haveStart = false
 				}
@@ -759,6 +767,24 @@ func confirmAndShrink(prop, tier, worker string, race bool, r *Result, class str
 	// a crashed run has no recorded tape: replay by seed (tape == nil means fresh draws)
 	got, ok := check(tape)
 	if !ok {
+		// second chance: the failure may depend on package-level state of the system under
+		// test that earlier runs of the same worker process left behind (one process serves
+		// many tunnels in production too).  Re-run the same sequence of runs in a fresh
+		// process; if the same run fails the same way, it is a deterministic multi-run replay.
+		if len(r.Batch) > 1 {
+			job := &Job{Prop: prop, Scenario: r.Scenario, Tier: tier, Seeds: r.Batch, Args: r.Args, KeepTape: true}
+			res, _, _, err := runWorker(worker, job, race, 600*time.Second)
+			if err == nil && len(res) == len(r.Batch) {
+				last := res[len(res)-1]
+				if last.Violation != nil {
+					if _, c := classOf(last); c == class && last.Journal == r.Journal {
+						rp := mkReplay(prop, r, last, last.Tape, class, race, fmt.Sprintf("not shrunk: reproduces only after the %d preceding runs of the same process (state kept in package-level variables)", len(r.Batch)-1))
+						rp.PrefixSeeds = r.Batch[:len(r.Batch)-1]
+						return rp, true
+					}
+				}
+			}
+		}
 		return nil, false
 	}
 	if tape == nil && got.Crash != "" {
@@ -854,7 +880,14 @@ func doReplay(path string) int {
 	worker, info := build(rp.Race)
 	fmt.Printf("vcheck replay %s: %s\n", path, info)
 	job := &Job{Prop: rp.Property, Scenario: rp.Scenario, Tier: "quick", Seeds: []uint64{rp.Seed}, Tape: rp.Tape, Args: rp.Args, Verbose: true, KeepTape: true}
-	res, crash, st, err := runWorker(worker, job, rp.Race, 300*time.Second)
+	if len(rp.PrefixSeeds) > 0 {
+		job.Seeds = append(append([]uint64{}, rp.PrefixSeeds...), rp.Seed)
+		job.Tape = nil
+	}
+	res, crash, st, err := runWorker(worker, job, rp.Race, 600*time.Second)
+	if len(rp.PrefixSeeds) > 0 && len(res) == len(job.Seeds) {
+		res = res[len(res)-1:]
+	}
 	if err != nil {
 		die2("%v\n%s", err, st)
 	}
